@@ -644,17 +644,24 @@ def x_differ(p, q, tol, P=None, Q=None):
 
 
 # ---- canonical view of a spec ---------------------------------------------------------------------------------------------------------
+def _z(x):
+    """-0.0 -> 0.0 (equal as numbers, different when printed)"""
+    if isinstance(x, complex):
+        return complex(x.real + 0.0, x.imag + 0.0)
+    return x + 0.0 if isinstance(x, float) else x
+
+
 def canon_op(c):
     """-> (class name as the implementation sees it, list of parameters (op.p), measurement options (select, dark_counts))"""
     nm, params = c[0], c[1]
     o = _cmd_opts(c)
     if nm == "MeasureHomodyneSel":
-        return "MeasureHomodyne", [params[0]], ((float(params[1]),), None)
+        return "MeasureHomodyne", [params[0]], ((_z(float(params[1])),), None)
     if nm == "MeasureHeterodyneSel":
-        return "MeasureHeterodyne", [], ((complex(params[0], params[1]),), None)
+        return "MeasureHeterodyne", [], ((_z(complex(params[0], params[1])),), None)
     if nm in ("MeasureFock", "MeasureThreshold"):
         sel, dc = o.get("select"), o.get("dark_counts")
-        return nm, [], (tuple(sel) if sel is not None else None, tuple(dc) if dc is not None else None)
+        return nm, [], (tuple(_z(v) for v in sel) if sel is not None else None, tuple(_z(v) for v in dc) if dc is not None else None)
     if nm in ARRAY_OPS:
         return nm, [{"arr": [params[0], params[1]]}], (None, None)
     if nm == "Gaussian":
@@ -669,14 +676,14 @@ def canon_op(c):
 def canon_param(x, side):
     if isinstance(x, dict):
         if "arr" in x:
-            return ("arr", repr(x["arr"]))
+            return ("arr", repr([(np.array(a, dtype=float) + 0.0).tolist() if a is not None else None for a in x["arr"]]))
         if "re" in x:
-            return ("c", float(x["re"]), float(x["im"]))
+            return ("c", _z(float(x["re"])), _z(float(x["im"])))
         if "par" in x:
-            return ("par", side, x["par"], float(x.get("mul", 1.0)), float(x.get("add", 0.0)))  # measured parameters of different programs are different symbols
+            return ("par", side, x["par"], _z(float(x.get("mul", 1.0))), _z(float(x.get("add", 0.0))))  # measured parameters of different programs are different symbols
         if "free" in x:
-            return ("free", x["free"], float(x.get("mul", 1.0)), float(x.get("add", 0.0)))
-    return ("num", float(x))
+            return ("free", x["free"], _z(float(x.get("mul", 1.0))), _z(float(x.get("add", 0.0))))
+    return ("num", _z(float(x)))
 
 
 def final_register(spec):
@@ -1093,7 +1100,7 @@ def touched(c):
     return set(c[2]) | {x["par"] for x in c[1] if isinstance(x, dict) and "par" in x}
 
 
-X_KINDS = ["same", "prefix", "extend", "dagger", "param", "param", "modes", "modes", "class", "swap", "swap", "swap", "relabel", "dropmid", "select", "swapdep", "dup", "dark", "measure-order",
+X_KINDS = ["same", "prefix", "extend", "dagger", "param", "param", "modes", "modes", "class", "swap", "swap", "swap", "swap", "swap", "relabel", "dropmid", "select", "swapdep", "dup", "dark", "measure-order",
            "param-neg", "param-shift", "param-swap", "select-drop", "measure-subset", "nmodes"]
 
 
@@ -1142,6 +1149,8 @@ def x_variant(rng, spec, kind):
         i = rng.choice(idx)
         j = rng.randrange(len(cm[i][1]))
         if kind == "param-neg":
+            if cm[i][1][j] == 0:
+                return "same", q
             cm[i][1][j] = -cm[i][1][j]
         elif kind == "param-shift":
             cm[i][1][j] = cm[i][1][j] + rng.choice([math.pi, -math.pi, 2 * math.pi, math.pi / 2])
@@ -1198,7 +1207,16 @@ def x_variant(rng, spec, kind):
         i = rng.choice(idx)
         delta = rng.choice(PERTURB)
         if cm[i][0] in ARRAY_OPS:
-            cm[i][1] = arr_times_phase(cm[i][1], rng.randrange(3), delta)
+            r = rng.random()
+            im = np.array(cm[i][1][1], dtype=float)
+            if r < 0.25 and np.abs(im).max() > 1e-3:      # complex conjugate: only the imaginary parts change
+                cm[i][1] = [cm[i][1][0], (-im).tolist()]
+            elif r < 0.4 and len(cm[i][1][0]) > 1:        # transpose: the same entries in other places
+                cm[i][1] = [np.array(cm[i][1][0], dtype=float).T.tolist(), im.T.tolist()]
+                if cm[i][1] == spec["cmds"][i][1]:
+                    return "same", q
+            else:
+                cm[i][1] = arr_times_phase(cm[i][1], rng.randrange(3), delta)
         else:
             j = rng.randrange(len(cm[i][1]))
             x = cm[i][1][j]
@@ -1239,6 +1257,20 @@ def x_variant(rng, spec, kind):
         if not alts:
             return "same", q
         cm[i][0] = rng.choice(alts)
+    elif kind == "swap" and len(cm) >= 3 and rng.random() < 0.4:
+        # a chain of swaps of adjacent independent commands: one command moved to the front of the commands it is independent of
+        cand = []
+        for j in range(1, len(cm)):
+            i = j
+            while i > 0 and not (touched(cm[j]) & touched(cm[i - 1])) and "New" not in (cm[j][0], cm[i - 1][0]):
+                i -= 1
+            if i < j and any(cm[k] != cm[j] for k in range(i, j)):
+                cand.append((i, j))
+        if not cand:
+            return "same", q
+        i, j = rng.choice(cand)
+        i = rng.randint(i, j - 1)
+        cm.insert(i, cm.pop(j))
     elif kind in ("swap", "swapdep") and len(cm) >= 2:
         indep = kind == "swap"
         cand = [i for i in range(len(cm) - 1) if (not (touched(cm[i]) & touched(cm[i + 1]))) == indep and cm[i] != cm[i + 1]
@@ -1354,6 +1386,18 @@ def search_multimode(ctx, eq_batch):
                 p = {"n": n, "cmds": pre + [[name, copy.deepcopy(pr), modes, dag]] + post}
                 q = {"n": n, "cmds": copy.deepcopy(pre) + [[name, copy.deepcopy(pr), perm, dag]] + copy.deepcopy(post)}
                 yield {"check": "x", "kind": "modes-order", "p": p, "q": q, "calls": [{}, {"compare_params": False}], "family": name}
+        for name, k in (("Interferometer", 2), ("Interferometer", 3), ("PassiveChannel", 2)):
+            for rep in range(ctx.budget(2, 6)):
+                n = 3
+                modes = rng.sample(range(n), k)
+                pr = rand_unitary(rng, k) if name == "Interferometer" else sfgen.passive_T(rng, k)
+                re_, im_ = np.array(pr[0], dtype=float), np.array(pr[1], dtype=float)
+                qr = [re_.tolist(), (-im_).tolist()] if rep % 2 == 0 else [re_.T.tolist(), im_.T.tolist()]
+                pre = [sfgen.random_cmd(rng, n, list(sfgen.GAUSSIAN_GATES)) for _ in range(rng.randint(1, 3))]
+                p = {"n": n, "cmds": pre + [[name, pr, modes, False]]}
+                q = {"n": n, "cmds": copy.deepcopy(pre) + [[name, qr, list(modes), False]]}
+                if p != q:
+                    yield {"check": "x", "kind": "param", "p": p, "q": q, "calls": [{}], "family": name, "nontrivial": True}
         # degenerate lengths: the empty program against a non-empty one, a single command against two
         for _ in range(ctx.budget(3, 12)):
             n = rng.randint(1, 3)
